@@ -51,3 +51,141 @@ def hoist_partial_products(t):
 
 
 RULES['hoist_partial_products'] = hoist_partial_products
+
+
+# ---------------------------------------------------------------------------------------
+# G5 call-trace translation of thin wrapper functions (R15 stubs, R21 logged float ops)
+OBJ_TYPES = ['Clipper64', 'ClipperD', 'ClipperOffset', 'RectClip64', 'RectClipLines64', 'PolyTree64', 'PolyTreeD',
+             'PolyPath64', 'PolyPathD']
+VAL_TYPES = ['Paths64', 'PathsD', 'Path64', 'PathD', 'Rect64', 'RectD', 'PathsT', 'PathT']
+ENUM_CASTS = ['ClipType', 'FillRule', 'JoinType', 'EndType', 'PathType']
+
+
+REF_ARGS = {'Clipper64_Execute': [3, 4], 'ClipperD_Execute': [3, 4], 'ClipperOffset_Execute': [2],
+            'CreateCPolyTree64': [0], 'CreateCPolyTreeD': [0], 'CheckPrecisionRange': [0, 1], 'ScalePaths': [2], 'ScalePath': [2],
+            'BuildPaths64': [0, 1], 'BuildPathsD': [0, 1], 'BuildTree64': [0, 1], 'BuildTreeD': [0, 1]}
+
+
+def split_args(s):
+    parts, depth, cur = [], 0, ''
+    for ch in s:
+        if ch in '([{':
+            depth += 1
+        elif ch in ')]}':
+            depth -= 1
+        if ch == ',' and depth == 0:
+            parts.append(cur)
+            cur = ''
+        else:
+            cur += ch
+    parts.append(cur)
+    return parts
+
+
+def calltrace(t):
+    """Objects of library classes become tokens; constructors, methods and free functions
+    become calls to logging stubs: `T x(a,b);` -> `T x; T_ctor(&x, a, b);`, `x.M(a)` -> `T_M(&x, a)`.
+    Container values stay values (struct tokens).  `v.size()` -> `v.size`."""
+    n = 0
+    types = {}
+    body_start = t.index('{')
+    head, body = t[:body_start], t[body_start:]
+    # parameters of object/value type (by reference or value) -> record type
+    for ty in OBJ_TYPES + VAL_TYPES:
+        for m in re.finditer(r'\b(?:const\s+)?' + ty + r'\s*[&*]?\s*(\w+)\s*(?=[,)])', head):
+            types[m.group(1)] = ty
+    # declarations
+    def decl(m):
+        nonlocal n
+        ty, rest = m.group(2), m.group(3)
+        out = []
+        # split declarators at top-level commas
+        parts, depth, cur = [], 0, ''
+        for ch in rest:
+            if ch in '([{':
+                depth += 1
+            elif ch in ')]}':
+                depth -= 1
+            if ch == ',' and depth == 0:
+                parts.append(cur)
+                cur = ''
+            else:
+                cur += ch
+        parts.append(cur)
+        for p in parts:
+            p = p.strip()
+            mm = re.match(r'^(\w+)\s*(?:\((.*)\)|=\s*(.*))?$', p, re.S)
+            if not mm:
+                return m.group(0)
+            name, cargs, init = mm.group(1), mm.group(2), mm.group(3)
+            types[name] = ty
+            n += 1
+            if ty in OBJ_TYPES:
+                out.append('%s %s; %s_ctor(&%s%s);' % (ty, name, ty, name, (', ' + cargs) if cargs and cargs.strip() else ''))
+            elif init is not None:
+                out.append('%s %s = %s;' % (ty, name, init))
+            elif cargs is not None and cargs.strip():
+                out.append('%s %s = %s_make(%s);' % (ty, name, ty, cargs))
+            else:
+                out.append('%s %s = {0};' % (ty, name))
+        return m.group(1) + ' '.join(out)
+    alltypes = '|'.join(OBJ_TYPES + VAL_TYPES)
+    body = re.sub(r'(?:(?<=[;{}/])|^)(\s*)(?:class\s+)?\b(' + alltypes + r')\s+((?:\w+\s*(?:\([^;]*?\)|=[^;]*?)?\s*,\s*)*\w+\s*(?:\([^;]*?\)|=[^;]*?)?)\s*;',
+                  decl, body, flags=re.S)
+    # method calls
+    for name, ty in sorted(types.items(), key=lambda kv: -len(kv[0])):
+        V = r'(?<![\w.>&])' + name
+        body, k = re.subn(V + r'\s*\.\s*size\s*\(\s*\)', name + '.size', body)
+        n += k
+        if ty in OBJ_TYPES or ty in VAL_TYPES:
+            body, k = re.subn(V + r'\s*\.\s*(\w+)\s*\(\s*\)', ty + r'_\1(&' + name + ')', body)
+            n += k
+            body, k = re.subn(V + r'\s*\.\s*(\w+)\s*\(', ty + r'_\1(&' + name + ', ', body)
+            n += k
+    # by-reference output arguments of the callees (from their C++ declarations)
+    for fn, poss in REF_ARGS.items():
+        out, pos = '', 0
+        for m in re.finditer(r'\b' + fn + r'\s*\(', body):
+            a0 = m.end()
+            depth, i = 1, a0
+            while depth:
+                if body[i] == '(':
+                    depth += 1
+                elif body[i] == ')':
+                    depth -= 1
+                i += 1
+            args = split_args(body[a0:i - 1])
+            for k in poss:
+                if k < len(args) and not args[k].strip().startswith('&'):
+                    args[k] = ' &(' + args[k].strip() + ')'
+                    n += 1
+            out += body[pos:a0] + ','.join(args) + ')'
+            pos = i
+        body = out + body[pos:]
+    # explicit template arguments on calls
+    body, k = re.subn(r'\b(\w+)\s*<\s*[\w:]+(?:\s*,\s*[\w:]+)*\s*>\s*\(', r'\1(', body)
+    n += k
+    for e in ENUM_CASTS:
+        body, k = re.subn(r'(?<![\w(])' + e + r'\s*\(', '(' + e + ')(', body)
+        n += k
+    return head + body, n
+
+
+def floatops(t):
+    """R21: the floating-point products/quotients of wrappers become logging stubs."""
+    n = 0
+    body_start = t.index('{')
+    head, body = t[:body_start], t[body_start:]
+    body, k = re.subn(r'\b1(?:\.0)?\s*/\s*(\w+)\b', r'vf_fdiv(1.0, \1)', body)
+    n += k
+    body, k = re.subn(r'(?<![\w.)\]])(\w+)\s*\*\s*(\w+)\b(?!\s*[(\[.])', r'vf_fmul(\1, \2)', body)
+    n += k
+    body, k = re.subn(r'\bpow\s*\(', 'vf_pow(', body)
+    n += k
+    body, k = re.subn(r'\blog10\s*\(', 'vf_log10(', body)
+    n += k
+    return head + body, n
+
+
+RULES['calltrace'] = calltrace
+RULES['floatops'] = floatops
